@@ -74,6 +74,15 @@ CHECKS = {
         "Trusts vp/treeref.reroot; nested lambdas that re-bind the same variable name are outside the quantifier.",
         "DESIGN.md §6 C17",
     ),
+    "C16": (
+        "Hypothesis grammar generation x per-kind handler overrides x shipped visitors; reference traversal/map oracle, snapshot immutability, equality-vs-structure",
+        "For each generated AST the visit order of a recording NodeVisitor is compared (by node identity) with the "
+        "harness's own depth-first field-order walk; each node kind present gets an overriding handler in a visitor "
+        "and in a transformer, compared with the harness's own bottom-up map; every shipped visitor is run on a "
+        "deep-snapshotted input; == is compared with structural equality of decoded terms on near-copies.",
+        "Trusts vp/treeref.walk_nodes and c16.ref_map (dataclasses.fields order).",
+        "DESIGN.md §6 C16",
+    ),
 }
 
 ALL = ["C%02d" % i for i in range(1, 21)]
